@@ -3,7 +3,14 @@
   server_legacy.go and server_http.go (Generated/Session.lean):
 
   * `uri_sound` / `uri_complete`        — ValidateEndSessionPostLogoutRedirectURI = "registered exactly or via an opted-in glob"
-  * `hint_sound`                        — a hint the verifier lets through (valid or expired) is validly signed (C02) by the own issuer
+  * `hint_sound`                        — a hint the verifier lets through (valid or expired) is validly signed (C02) by the own issuer,
+                                          under the key set CONFIGURED FOR HINTS
+  * `c18_hint_keyset`                   — over the REGENERATED key-set wiring of `NewProvider` / `WithAccessTokenKeySet` /
+                                          `WithIDTokenHintKeySet` / the verifier getters (Generated/SessionKeys.lean): for EVERY list of
+                                          options the hint verifier's key set is the argument of the last `WithIDTokenHintKeySet`, else the
+                                          storage-backed key set - whatever `WithAccessTokenKeySet` options the list contains
+  * `c18_provider_configured`           — hence the provider `NewProvider` returns is configured as the statement assumes; the headline
+                                          theorems (`c18_redirect_sound`, `c18_hint_rules`, …) are about THAT provider, for every option list
   * `validate_eq_ref`                   — bridge: ValidateEndSessionRequest is the three-step reference function
   * `c18_redirect_sound`                — a redirecting answer of either router satisfies the monitor (all clauses), for every
                                           URL parser: the target's own query text is kept as it is (`c18_query_kept`)
@@ -120,18 +127,18 @@ theorem acceptedOK_congr (algs : List String) (ks : KeySet) (t : Token) (c c' : 
 
 /-- a hint the regenerated verifier lets through (valid OR expired) is proven in the sense of the statement -/
 theorem hint_sound {now : Int} {t : Token} {v : Verifier} {out : HintOut} (cfg : Cfg)
-    (hi : v.Issuer = cfg.issuer) (hk : v.KeySet = cfg.keys) (ha : v.SupportedSignAlgs = cfg.algs)
+    (hi : v.Issuer = cfg.issuer) (hk : v.KeySet = cfg.hintKeySet) (ha : v.SupportedSignAlgs = cfg.algs)
     (h : VerifyIDTokenHint now t v = .ok out) :
     ∃ c, hintProven cfg t = some c ∧ hintDefect cfg t = none ∧ (hintClaims out).sub = c.sub ∧ (hintClaims out).azp = c.azp := by
   obtain ⟨p, c0, c1, hp, hiss, hs, hc⟩ := hint_paths h
   obtain ⟨alg, halg⟩ := checkSignature_claims hs
   have hacc := C02.parse_and_signature_sound hp hs
   have hco := parseToken_claimsOf hp
-  have hmon : C02.monitor cfg.algs cfg.keys t (some c0) = none := by
-    have e : C02.acceptedOK cfg.algs cfg.keys t c0 = none := by
+  have hmon : C02.monitor cfg.algs cfg.hintKeySet t (some c0) = none := by
+    have e : C02.acceptedOK cfg.algs cfg.hintKeySet t c0 = none := by
       rw [← ha, ← hk, ← acceptedOK_congr _ _ _ c0 c1 (by rw [halg]; rfl)]
       exact hacc.1
-    have hamb : C02.ambiguous cfg.keys t = false := by rw [← hk]; exact hacc.2
+    have hamb : C02.ambiguous cfg.hintKeySet t = false := by rw [← hk]; exact hacc.2
     simp [C02.monitor, e, hamb]
   have hissuer : c0.iss = cfg.issuer := by rw [← hi]; exact checkIssuer_ok hiss
   refine ⟨c0, ?_, ?_, ?_, ?_⟩
@@ -319,16 +326,133 @@ structure Configured (cfg : Cfg) (e : SessionEnder) : Prop where
   clients : e.store.clients = cfg.clients
   dflt : e.defaultLogoutURI = cfg.defaultURI
   issuer : e.hintVerifier.Issuer = cfg.issuer
-  keys : e.hintVerifier.KeySet = cfg.keys
+  keys : e.hintVerifier.KeySet = cfg.hintKeySet     -- the key set configured for hints, NOT the access-token key set
   algs : e.hintVerifier.SupportedSignAlgs = cfg.algs
 
+/-! ### which key set the verifiers of a constructed provider use (regenerated wiring, Generated/SessionKeys.lean) -/
+section keysets
+open SessKeys
+
+/-- what ONE option does to the key-set fields (the regenerated option functions): `WithAccessTokenKeySet` writes
+    the access-token field, `WithIDTokenHintKeySet` the hint field, no other option touches either -/
+theorem applyOption_fields {α : Type} (own : α) (s : St α) (n : String) (a : α) :
+    (applyOption GenSessKeys.optionEffects own s (n, a)).fields =
+      if n = "WithAccessTokenKeySet" then ("accessTokenKeySet", some a) :: s.fields
+      else if n = "WithIDTokenHintKeySet" then ("idTokenHinKeySet", some a) :: s.fields else s.fields := by
+  by_cases h1 : n = "WithAccessTokenKeySet"
+  · subst h1; rfl
+  · by_cases h2 : n = "WithIDTokenHintKeySet"
+    · subst h2; rfl
+    · have e1 : ("WithAccessTokenKeySet" == n) = false := by simpa using fun e => h1 e.symm
+      have e2 : ("WithIDTokenHintKeySet" == n) = false := by simpa using fun e => h2 e.symm
+      simp [applyOption, GenSessKeys.optionEffects, effectsOf, e1, e2, h1, h2]
+
+/-- the option loop: each field ends up with the argument of the LAST option that writes it, else keeps its content -/
+theorem applyOptions_get {α : Type} (own : α) (opts : List (String × α)) (s : St α) :
+    SessKeys.get (opts.foldl (applyOption GenSessKeys.optionEffects own) s).fields "idTokenHinKeySet" =
+      (match lastArg "WithIDTokenHintKeySet" opts with | some a => some a | none => SessKeys.get s.fields "idTokenHinKeySet") ∧
+    SessKeys.get (opts.foldl (applyOption GenSessKeys.optionEffects own) s).fields "accessTokenKeySet" =
+      (match lastArg "WithAccessTokenKeySet" opts with | some a => some a | none => SessKeys.get s.fields "accessTokenKeySet") := by
+  induction opts generalizing s with
+  | nil => exact ⟨rfl, rfl⟩
+  | cons o rest ih =>
+    obtain ⟨n, a⟩ := o
+    simp only [List.foldl_cons]
+    obtain ⟨ih1, ih2⟩ := ih (applyOption GenSessKeys.optionEffects own s (n, a))
+    rw [ih1, ih2, applyOption_fields]
+    simp only [lastArg]
+    constructor
+    · cases lastArg "WithIDTokenHintKeySet" rest with
+      | some b => rfl
+      | none =>
+        by_cases h1 : n = "WithAccessTokenKeySet"
+        · subst h1; rfl
+        · by_cases h2 : n = "WithIDTokenHintKeySet"
+          · subst h2; rfl
+          · simp [h1, h2]
+    · cases lastArg "WithAccessTokenKeySet" rest with
+      | some b => rfl
+      | none =>
+        by_cases h1 : n = "WithAccessTokenKeySet"
+        · subst h1; rfl
+        · by_cases h2 : n = "WithIDTokenHintKeySet"
+          · subst h2; rfl
+          · simp [h1, h2]
+
+/-- C18, "a hint validly signed BY THE OP": for EVERY list of options passed to `NewProvider` (any order, repeats,
+    other options in between) and every storage-backed key set `own`,
+    * the verifier `Provider.IDTokenHintVerifier` builds verifies with the argument of the last `WithIDTokenHintKeySet`
+      of the list, and without such an option with `own` (`&OpenIDKeySet{storage}`) — independently of every
+      `WithAccessTokenKeySet` in the list;
+    * that is the content of the field the regenerated getter `Gen.ProviderIDTokenHintVerifier` reads;
+    * `Provider.AccessTokenVerifier` verifies with the last `WithAccessTokenKeySet` argument, else with `own`.
+    About the REGENERATED `newProvider_keysets`, `optionEffects`, `verifierKeySets`. -/
+theorem c18_hint_keyset {α : Type} (own : α) (opts : List (String × α)) :
+    let s := run GenSessKeys.optionEffects own opts GenSessKeys.newProvider_keysets
+    verifierKeySet GenSessKeys.verifierKeySets own s "IDTokenHintVerifier" = some ((lastArg "WithIDTokenHintKeySet" opts).getD own) ∧
+    SessKeys.get s.fields "idTokenHinKeySet" = some ((lastArg "WithIDTokenHintKeySet" opts).getD own) ∧
+    verifierKeySet GenSessKeys.verifierKeySets own s "AccessTokenVerifier" = some ((lastArg "WithAccessTokenKeySet" opts).getD own) := by
+  intro s
+  have hs : s = opts.foldl (applyOption GenSessKeys.optionEffects own)
+      { locals := [("keySet", some own)], fields := [("idTokenHinKeySet", some own), ("accessTokenKeySet", some own)] } := rfl
+  obtain ⟨h1, h2⟩ := applyOptions_get own opts
+    { locals := [("keySet", some own)], fields := [("idTokenHinKeySet", some own), ("accessTokenKeySet", some own)] }
+  rw [← hs] at h1 h2
+  have g1 : SessKeys.get s.fields "idTokenHinKeySet" = some ((lastArg "WithIDTokenHintKeySet" opts).getD own) := by
+    rw [h1]; cases lastArg "WithIDTokenHintKeySet" opts <;> rfl
+  have g2 : SessKeys.get s.fields "accessTokenKeySet" = some ((lastArg "WithAccessTokenKeySet" opts).getD own) := by
+    rw [h2]; cases lastArg "WithAccessTokenKeySet" opts <;> rfl
+  exact ⟨g1, g1, g2⟩
+
+/-- the same as a table: per option combination, the source of the key set of each verifier -/
+theorem c18_keyset_table :
+    SessKeys.table GenSessKeys.newProvider_keysets GenSessKeys.optionEffects GenSessKeys.verifierKeySets =
+      [((false, false), [("IDTokenHintVerifier", some .storage), ("AccessTokenVerifier", some .storage)]),
+       ((true, false), [("IDTokenHintVerifier", some .storage), ("AccessTokenVerifier", some .accessTokenOpt)]),
+       ((false, true), [("IDTokenHintVerifier", some .idTokenHintOpt), ("AccessTokenVerifier", some .storage)]),
+       ((true, true), [("IDTokenHintVerifier", some .idTokenHintOpt), ("AccessTokenVerifier", some .accessTokenOpt)])] := by
+  decide
+
+/-- the storage-backed key set takes its keys from `Storage.KeySet` (the keys the OP publishes and signs with) and nowhere else -/
+theorem c18_openIDKeySet_storage : GenSessKeys.openIDKeySet_storageCalls = ["KeySet"] := by decide
+
+end keysets
+
+/-- the hint key set the configuration `cfg` names is what the option list `opts` asks for -/
+def HintOpts (cfg : Cfg) (opts : List Sess.KeyOpt) : Prop :=
+  SessKeys.lastArg "WithIDTokenHintKeySet" (opts.map Sess.KeyOpt.named) = cfg.hintKeys
+
+/-- the provider `op.NewProvider` returns for the configuration `cfg` and the options `opts`, on a storage that
+    behaves as `termOK` / `fromReq` say, serving a request addressed to `cfg.issuer` -/
+def providerOf (now : Int) (cfg : Cfg) (opts : List Sess.KeyOpt) (termOK : String → String → Bool) (fromReq : Bool) : SessionEnder :=
+  Sess.constructedEnder now cfg.issuer cfg.keys opts cfg.algs
+    { clients := cfg.clients, termOK := termOK, is_CanTerminateSessionFromRequest := fromReq } cfg.defaultURI
+
+/-- the hint verifier of that provider uses the key set configured for hints — whatever access-token key sets `opts` names -/
+theorem providerOf_keySet (now : Int) (cfg : Cfg) (opts : List Sess.KeyOpt) (hopts : HintOpts cfg opts)
+    (termOK : String → String → Bool) (fromReq : Bool) :
+    (providerOf now cfg opts termOK fromReq).hintVerifier.KeySet = cfg.hintKeySet := by
+  have h := (c18_hint_keyset cfg.keys (opts.map Sess.KeyOpt.named)).2.1
+  show (Option.getD (SessKeys.get (Sess.newProviderKeySets cfg.keys opts).fields "idTokenHinKeySet") Sess.nilKeySet) = cfg.hintKeySet
+  unfold Sess.newProviderKeySets
+  rw [h, hopts]
+  rfl
+
 /-- the provider of the real routers is configured as the statement assumes: its hint verifier is rebuilt for
-    EVERY request from that request's issuer, the published key set and the configured algorithms
-    (regenerated `Provider.IDTokenHintVerifier`) -/
-theorem c18_provider_configured (now : Int) (cfg : Cfg) (termOK : String → String → Bool) (fromReq : Bool) :
-    Configured cfg (Sess.providerEnder now cfg.issuer { idTokenHinKeySet := cfg.keys, idTokenHintVerifierOpts := cfg.algs }
-      { clients := cfg.clients, termOK := termOK, is_CanTerminateSessionFromRequest := fromReq } cfg.defaultURI) :=
-  ⟨rfl, rfl, rfl, rfl, rfl⟩
+    EVERY request from that request's issuer, the key set configured for hints (`c18_hint_keyset`) and the configured
+    algorithms (regenerated `Provider.IDTokenHintVerifier`), for every list of options -/
+theorem c18_provider_configured (now : Int) (cfg : Cfg) (opts : List Sess.KeyOpt) (hopts : HintOpts cfg opts)
+    (termOK : String → String → Bool) (fromReq : Bool) :
+    Configured cfg (providerOf now cfg opts termOK fromReq) :=
+  ⟨rfl, rfl, rfl, providerOf_keySet now cfg opts hopts termOK fromReq, rfl⟩
+
+/-- a hint the constructed provider's verifier lets through is validly signed under the key set configured for hints -/
+theorem c18_hint_sound_provider {now : Int} {t : Token} {out : HintOut} (cfg : Cfg) (opts : List Sess.KeyOpt) (hopts : HintOpts cfg opts)
+    (termOK : String → String → Bool) (fromReq : Bool)
+    (h : VerifyIDTokenHint now t (providerOf now cfg opts termOK fromReq).hintVerifier = .ok out) :
+    ∃ c, hintProven cfg t = some c ∧ hintDefect cfg t = none ∧ (hintClaims out).sub = c.sub ∧ (hintClaims out).azp = c.azp :=
+  let hc := c18_provider_configured now cfg opts hopts termOK fromReq
+  hint_sound cfg hc.issuer hc.keys hc.algs h
 
 theorem identify_sound {cfg : Cfg} {e : SessionEnder} {now : Int} {o : SessOracles} {r : EndSessionReq}
     {uid cid : String} {cl : Claims} (hc : Configured cfg e) (h : refIdentify now o r e = .ok (uid, cid, cl)) :
@@ -774,7 +898,7 @@ theorem handle_redirect {rt : Sess.Router} {now : Int} {o : SessOracles} {rq : G
 /-- C18, soundness, both routers, ALL URL-parser behaviours: every redirecting answer satisfies ALL clauses of the
     monitor, for the session (u, c) the storage was asked to terminate; since this holds for every storage
     behaviour `termOK`, the storage is asked exactly for the session the monitor demands. -/
-theorem c18_redirect_sound (rt : Sess.Router) {cfg : Cfg} {e : SessionEnder} {now : Int} {o : SessOracles}
+theorem c18_redirect_sound_configured (rt : Sess.Router) {cfg : Cfg} {e : SessionEnder} {now : Int} {o : SessOracles}
     {rq : Go.R EndSessionReq} {loc : String} (hc : Configured cfg e)
     (h : Sess.handle rt now o rq e = .redirect loc) :
     ∃ u c dec, e.store.termOK u c = true ∧ ((monReq o rq).state ≠ "" → Rendered loc dec) ∧
@@ -784,7 +908,7 @@ theorem c18_redirect_sound (rt : Sess.Router) {cfg : Cfg} {e : SessionEnder} {no
   exact ⟨s.UserID, s.ClientID, dec, ht, hr, hm⟩
 
 /-- C18 clause "redirect only to the default URI or a URI registered for the proven client", full strength -/
-theorem c18_redirect_registered (rt : Sess.Router) {cfg : Cfg} {e : SessionEnder} {now : Int} {o : SessOracles}
+theorem c18_redirect_registered_configured (rt : Sess.Router) {cfg : Cfg} {e : SessionEnder} {now : Int} {o : SessOracles}
     {rq : Go.R EndSessionReq} {loc : String} (hc : Configured cfg e) (h : Sess.handle rt now o rq e = .redirect loc) :
     ∃ r, rq = .ok r ∧
       ∃ target ∈ allowedTargets cfg (orcOf o) (reqOf o r) (provenClientID (reqOf o r) (proven cfg (reqOf o r))),
@@ -795,7 +919,7 @@ theorem c18_redirect_registered (rt : Sess.Router) {cfg : Cfg} {e : SessionEnder
 
 /-- C18 clauses about the hint: a redirect happens only if the hint (when present) is validly signed by this
     issuer — expired or not — and the `client_id` parameter does not contradict it -/
-theorem c18_hint_rules (rt : Sess.Router) {cfg : Cfg} {e : SessionEnder} {now : Int} {o : SessOracles}
+theorem c18_hint_rules_configured (rt : Sess.Router) {cfg : Cfg} {e : SessionEnder} {now : Int} {o : SessOracles}
     {rq : Go.R EndSessionReq} {loc : String} (hc : Configured cfg e) (h : Sess.handle rt now o rq e = .redirect loc) :
     ∃ r, rq = .ok r ∧ (reqOf o r).hint.bind (hintDefect cfg) = none ∧ contradicts (proven cfg (reqOf o r)) r.ClientID = false := by
   obtain ⟨r, s, rfl, hv, _, rfl⟩ := handle_redirect h
@@ -803,7 +927,7 @@ theorem c18_hint_rules (rt : Sess.Router) {cfg : Cfg} {e : SessionEnder} {now : 
 
 /-- C18 clause "the session terminated is that of the hint's subject and client": for EVERY storage behaviour,
     a redirect implies that terminating exactly (hint subject or "", proven client or "") succeeded -/
-theorem c18_session_identity (rt : Sess.Router) {cfg : Cfg} {e : SessionEnder} {now : Int} {o : SessOracles}
+theorem c18_session_identity_configured (rt : Sess.Router) {cfg : Cfg} {e : SessionEnder} {now : Int} {o : SessOracles}
     {rq : Go.R EndSessionReq} {loc : String} (hc : Configured cfg e) (h : Sess.handle rt now o rq e = .redirect loc) :
     ∃ r, rq = .ok r ∧
       e.store.termOK (((proven cfg (reqOf o r)).map (·.sub)).getD "") (provenClientID (reqOf o r) (proven cfg (reqOf o r))) = true := by
@@ -814,7 +938,7 @@ theorem c18_session_identity (rt : Sess.Router) {cfg : Cfg} {e : SessionEnder} {
 /-- C18, completeness, both routers: a rejecting answer satisfies the monitor, i.e. a logout request that
     fulfils every rule (in particular one with an EXPIRED but genuine hint) is not rejected — as long as the
     storage terminates sessions and key selection is complete (`HintComplete`). -/
-theorem c18_rejected (rt : Sess.Router) {cfg : Cfg} {e : SessionEnder} {now : Int} {o : SessOracles}
+theorem c18_rejected_configured (rt : Sess.Router) {cfg : Cfg} {e : SessionEnder} {now : Int} {o : SessOracles}
     {rq : Go.R EndSessionReq} {st : Nat} {code : String} (hc : Configured cfg e) (hcomp : HintComplete cfg e.hintVerifier)
     (hterm : ∀ u c, e.store.termOK u c = true) (h : Sess.handle rt now o rq e = .error st code) :
     monitor cfg (orcOf o) (monReq o rq) (.rejected []) = none := by
@@ -839,6 +963,53 @@ theorem c18_no_redirect_without_termination (rt : Sess.Router) {now : Int} {o : 
   intro h
   obtain ⟨_, s, _, _, ht, _⟩ := handle_redirect h
   rw [hnone] at ht; simp at ht
+
+/-! ### the headline theorems, about the provider `op.NewProvider` returns, for EVERY list of key-set options
+    (through `c18_provider_configured`, i.e. `c18_hint_keyset`: the hint verifier uses the key set configured for hints) -/
+
+/-- C18, soundness, both routers, every option list: every redirecting answer satisfies ALL clauses of the monitor -/
+theorem c18_redirect_sound (rt : Sess.Router) (cfg : Cfg) (opts : List Sess.KeyOpt) (hopts : HintOpts cfg opts)
+    (termOK : String → String → Bool) (fromReq : Bool) {now : Int} {o : SessOracles} {rq : Go.R EndSessionReq} {loc : String}
+    (h : Sess.handle rt now o rq (providerOf now cfg opts termOK fromReq) = .redirect loc) :
+    ∃ u c dec, termOK u c = true ∧ ((monReq o rq).state ≠ "" → Rendered loc dec) ∧
+      monitor cfg (orcOf o) (monReq o rq) (.redirect loc dec [(u, c)]) = none :=
+  c18_redirect_sound_configured rt (c18_provider_configured now cfg opts hopts termOK fromReq) h
+
+/-- C18 clause "redirect only to the default URI or a URI registered for the proven client" -/
+theorem c18_redirect_registered (rt : Sess.Router) (cfg : Cfg) (opts : List Sess.KeyOpt) (hopts : HintOpts cfg opts)
+    (termOK : String → String → Bool) (fromReq : Bool) {now : Int} {o : SessOracles} {rq : Go.R EndSessionReq} {loc : String}
+    (h : Sess.handle rt now o rq (providerOf now cfg opts termOK fromReq) = .redirect loc) :
+    ∃ r, rq = .ok r ∧
+      ∃ target ∈ allowedTargets cfg (orcOf o) (reqOf o r) (provenClientID (reqOf o r) (proven cfg (reqOf o r))),
+        (r.State = "" ∧ loc = target) ∨
+        (r.State ≠ "" ∧ ∃ u, o.urlParse target = .ok u ∧ loc = (withState u r.State).render) :=
+  c18_redirect_registered_configured rt (c18_provider_configured now cfg opts hopts termOK fromReq) h
+
+/-- C18 clauses about the hint: a redirect happens only if the hint (when present) is validly signed — under the key
+    set configured for hints, never merely under an access-token key set — by this issuer, expired or not, and the
+    `client_id` parameter does not contradict it -/
+theorem c18_hint_rules (rt : Sess.Router) (cfg : Cfg) (opts : List Sess.KeyOpt) (hopts : HintOpts cfg opts)
+    (termOK : String → String → Bool) (fromReq : Bool) {now : Int} {o : SessOracles} {rq : Go.R EndSessionReq} {loc : String}
+    (h : Sess.handle rt now o rq (providerOf now cfg opts termOK fromReq) = .redirect loc) :
+    ∃ r, rq = .ok r ∧ (reqOf o r).hint.bind (hintDefect cfg) = none ∧ contradicts (proven cfg (reqOf o r)) r.ClientID = false :=
+  c18_hint_rules_configured rt (c18_provider_configured now cfg opts hopts termOK fromReq) h
+
+/-- C18 clause "the session terminated is that of the hint's subject and client" -/
+theorem c18_session_identity (rt : Sess.Router) (cfg : Cfg) (opts : List Sess.KeyOpt) (hopts : HintOpts cfg opts)
+    (termOK : String → String → Bool) (fromReq : Bool) {now : Int} {o : SessOracles} {rq : Go.R EndSessionReq} {loc : String}
+    (h : Sess.handle rt now o rq (providerOf now cfg opts termOK fromReq) = .redirect loc) :
+    ∃ r, rq = .ok r ∧
+      termOK (((proven cfg (reqOf o r)).map (·.sub)).getD "") (provenClientID (reqOf o r) (proven cfg (reqOf o r))) = true :=
+  c18_session_identity_configured rt (c18_provider_configured now cfg opts hopts termOK fromReq) h
+
+/-- C18, completeness: a logout request that fulfils every rule (hint genuine under the key set configured for hints,
+    expired or not) is not rejected, as long as the storage terminates sessions and key selection is complete -/
+theorem c18_rejected (rt : Sess.Router) (cfg : Cfg) (opts : List Sess.KeyOpt) (hopts : HintOpts cfg opts) (fromReq : Bool)
+    {now : Int} {o : SessOracles} {rq : Go.R EndSessionReq} {st : Nat} {code : String}
+    (hcomp : HintComplete cfg (providerOf now cfg opts (fun _ _ => true) fromReq).hintVerifier)
+    (h : Sess.handle rt now o rq (providerOf now cfg opts (fun _ _ => true) fromReq) = .error st code) :
+    monitor cfg (orcOf o) (monReq o rq) (.rejected []) = none :=
+  c18_rejected_configured rt (c18_provider_configured now cfg opts hopts (fun _ _ => true) fromReq) hcomp (fun _ _ => rfl) h
 
 /-- the query text of the target stays as it is: the redirect's query text starts with it, whatever it contains -/
 theorem c18_query_kept (u : SessURL) (s : String) :
@@ -972,6 +1143,56 @@ example : monitor xCfg (orcOf xOrc) { hint := some (xTok xClaims 1 0), clientID 
     (.rejected []) = some "rejected:valid-logout-request" := by decide
 example : monitor xCfg (orcOf xOrc) { hint := some (xTok xClaims 1 0), clientID := "", plu := "https://rp.example/out", state := "" }
     (.redirect "https://rp.example/out" (.error "-") [("user1", "web")]) = none := by decide
+
+/-! #### key-set options: which signer counts under which option combination -/
+def xKeyX : JWK := { KeyID := "x1", Use := "sig", kty := .rsa, keyNo := 1 }
+def xKeyY : JWK := { KeyID := "y1", Use := "sig", kty := .rsa, keyNo := 3 }
+def xKSX : KeySet := { kind := .published, keys := [xKeyX] }    -- a foreign key set, configured for ACCESS tokens
+def xKSY : KeySet := { kind := .published, keys := [xKeyY] }    -- a foreign key set, configured for HINTS
+def xTokBy (kid : String) (signer : Nat) : Token :=
+  let h : JHeader := { Algorithm := "RS256", KeyID := kid }
+  let p : Payload := { bytes := 1, claims := some xClaims }
+  { segs := 3, middle := some p, jws := some { Signatures := [{ Header := h, signer := some signer, signedAlg := "RS256", signedBytes := 1, signedHdr := h }], payload := p } }
+def xOrcK : SessOracles :=
+  { xOrc with tokenOf := fun s => if s == "byOP" then xTokBy "sig1" 0 else if s == "byX" then xTokBy "x1" 1 else if s == "byY" then xTokBy "y1" 3 else default }
+def xProv (opts : List Sess.KeyOpt) : SessionEnder := providerOf xNow xCfg opts (fun _ _ => true) false
+def xLogout (h : String) : Go.R EndSessionReq := .ok { IdTokenHint := h, PostLogoutRedirectURI := "https://rp.example/out" }
+
+example : HintOpts xCfg [] := rfl
+example : HintOpts xCfg [.accessToken xKSX] := rfl
+example : HintOpts { xCfg with hintKeys := some xKSY } [.idTokenHint xKSY, .accessToken xKSX] := rfl
+example : HintOpts { xCfg with hintKeys := some xKSY } [.idTokenHint xKSX, .accessToken xKSX, .idTokenHint xKSY] := rfl
+-- no option: the OP's own keys count, X's and Y's do not
+example : Sess.handle .provider xNow xOrcK (xLogout "byOP") (xProv []) = .redirect "https://rp.example/out" := by decide
+example : Sess.handle .provider xNow xOrcK (xLogout "byX") (xProv []) = .error 400 "invalid_request" := by decide
+-- ONLY WithAccessTokenKeySet(X): still the OP's own keys for hints; a hint signed with a key of X is rejected (both routers)
+example : Sess.handle .provider xNow xOrcK (xLogout "byOP") (xProv [.accessToken xKSX]) = .redirect "https://rp.example/out" := by decide
+example : Sess.handle .legacy xNow xOrcK (xLogout "byOP") (xProv [.accessToken xKSX]) = .redirect "https://rp.example/out" := by decide
+example : Sess.handle .provider xNow xOrcK (xLogout "byX") (xProv [.accessToken xKSX]) = .error 400 "invalid_request" := by decide
+example : Sess.handle .legacy xNow xOrcK (xLogout "byX") (xProv [.accessToken xKSX]) = .error 400 "invalid_request" := by decide
+-- WithIDTokenHintKeySet(Y): Y's keys count, the OP's own do not any more (that is what the deployment configured)
+example : Sess.handle .provider xNow xOrcK (xLogout "byY") (xProv [.idTokenHint xKSY]) = .redirect "https://rp.example/out" := by decide
+example : Sess.handle .provider xNow xOrcK (xLogout "byOP") (xProv [.idTokenHint xKSY]) = .error 400 "invalid_request" := by decide
+-- both, in either order: Y for hints, X plays no part
+example : Sess.handle .provider xNow xOrcK (xLogout "byY") (xProv [.accessToken xKSX, .idTokenHint xKSY]) = .redirect "https://rp.example/out" := by decide
+example : Sess.handle .provider xNow xOrcK (xLogout "byX") (xProv [.idTokenHint xKSY, .accessToken xKSX]) = .error 400 "invalid_request" := by decide
+-- the monitor: a hint that verifies only under the access-token key set must not be believed, an OP-signed one must be
+example : monitor { xCfg with accessTokenKeys := some xKSX } (orcOf xOrcK) { hint := some (xTokBy "x1" 1), clientID := "", plu := "https://rp.example/out", state := "" }
+    (.redirect "https://rp.example/out" (.error "-") [("user1", "web")]) = some "hint:trusted-only-by-access-token-keyset" := by decide
+example : monitor { xCfg with accessTokenKeys := some xKSX } (orcOf xOrcK) { hint := some (xTokBy "sig1" 0), clientID := "", plu := "https://rp.example/out", state := "" }
+    (.rejected []) = some "rejected:valid-logout-request" := by decide
+example : monitor { xCfg with accessTokenKeys := some xKSX } (orcOf xOrcK) { hint := some (xTokBy "x1" 1), clientID := "", plu := "https://rp.example/out", state := "" }
+    (.rejected []) = none := by decide
+-- … unless the same set is ALSO configured for hints
+example : monitor { xCfg with accessTokenKeys := some xKSX, hintKeys := some xKSX } (orcOf xOrcK) { hint := some (xTokBy "x1" 1), clientID := "", plu := "https://rp.example/out", state := "" }
+    (.redirect "https://rp.example/out" (.error "-") [("user1", "web")]) = none := by decide
+example : monitor { xCfg with hintKeys := some xKSY } (orcOf xOrcK) { hint := some (xTokBy "sig1" 0), clientID := "", plu := "", state := "" }
+    (.redirect "https://op.example/bye" (.error "-") [("user1", "web")]) = some "hint:untrusted-signature" := by decide
+-- a storage that refuses to terminate: rejecting is right, redirecting is not
+example : monitor xCfg (orcOf xOrc) { hint := some (xTok xClaims 1 0), clientID := "", plu := "https://rp.example/out", state := "", termRefused := true }
+    (.rejected []) = none := by decide
+example : monitor xCfg (orcOf xOrc) { hint := some (xTok xClaims 1 0), clientID := "", plu := "https://rp.example/out", state := "", termRefused := true }
+    (.redirect "https://rp.example/out" (.error "-") []) = some "session:not-terminated" := by decide
 end examples
 
 end C18
